@@ -69,6 +69,19 @@ Theorem C40_reused_content_indexed : forall fl idx m p h,
   In h (content_of p) -> mem h idx = true.
 Proof. exact reused_content_indexed. Qed.
 
+(* parent selection: --force none; --parent ID that snapshot; otherwise the newest snapshot whose path
+   list contains every requested path (a snapshot of other paths is never picked) *)
+Theorem C40_select_parent : forall snaps paths force expl,
+  (force = true -> select_parent snaps paths force expl = None)
+  /\ (force = false -> forall i, expl = Some i -> select_parent snaps paths force expl = Some i)
+  /\ (force = false -> expl = None -> forall i, select_parent snaps paths force expl = Some i ->
+        exists ps t, In (i, ps, t) snaps /\ subset paths ps = true
+          /\ forall j ps' t', In (j, ps', t') snaps -> subset paths ps' = true -> t' <= t)
+  /\ (force = false -> expl = None -> select_parent snaps paths force expl = None ->
+        forall j ps t, In (j, ps, t) snaps -> subset paths ps = false).
+Proof. exact select_parent_spec. Qed.
+
+Print Assumptions C40_select_parent.
 Print Assumptions C40_reused_content_indexed.
 Print Assumptions C40_incr_eq_full.
 Print Assumptions C40_truthfulness_needed.
